@@ -232,6 +232,9 @@ func (p *Process) getProcessStarter() func() error {
 }
 
 func (p *Process) getCommander() command.Commander {
+	if c := verifCommander(p); c != nil {
+		return c
+	}
 	if p.procConf.IsTty && !p.isMain {
 		return command.BuildPtyCommand(
 			p.procConf.Executable,
@@ -263,6 +266,9 @@ func (p *Process) mergeExtraArgs() []string {
 }
 
 func (p *Process) getBackoff() time.Duration {
+	if d, ok := verifBackoff(p); ok {
+		return d
+	}
 	backoff := 1
 	if p.procConf.RestartPolicy.BackoffSeconds > backoff {
 		backoff = p.procConf.RestartPolicy.BackoffSeconds
